@@ -85,10 +85,45 @@ pub fn upload_other<S: Src>(s: &mut S) {
     rejects!(Some(Value::List(Vec::new())));
 }
 
+
+/// `Upload::value` (the resolver-side lookup of a parsed upload index in the request's files)
+/// for EVERY index, including forged ones: with no file in the request it returns an error
+/// and never panics (no out-of-range index, no arithmetic overflow near usize::MAX).
+/// The Context is hand-built through the verif-hooks constructors (empty registry).
+pub fn upload_value_no_files<S: Src>(s: &mut S) {
+    use std::mem::ManuallyDrop as MD;
+    use async_graphql::parser::types::*;
+    use async_graphql::registry::Registry;
+    use async_graphql::verif_hooks::{query_env, schema_env};
+    use crate::ast::p;
+    let idx = s.usize();
+    cover!(idx == usize::MAX, "largest index");
+    cover!(idx == 0, "first index");
+    let senv = MD::new(schema_env(Registry::default()));
+    let op = p(OperationDefinition {
+        ty: OperationType::Mutation,
+        variable_definitions: Vec::new(),
+        directives: Vec::new(),
+        selection_set: p(SelectionSet { items: Vec::new() }),
+    });
+    let qenv = MD::new(query_env(&senv, async_graphql::Variables::default(), op, Vec::new()));
+    let field = MD::new(p(Field {
+        alias: None,
+        name: p(async_graphql::Name::new("f")),
+        arguments: Vec::new(),
+        directives: Vec::new(),
+        selection_set: p(SelectionSet { items: Vec::new() }),
+    }));
+    let ctx = MD::new(qenv.create_context(&senv, None, &*field, None));
+    let r = MD::new(Upload(idx).value(&ctx));
+    assert!(r.is_err(), "an upload index was resolved although the request carries no file");
+}
+
 harnesses! {
     #[kani::unwind(20)] #[kani::stub(std::fmt::format, crate::stubs::fmt_stub)] #[kani::stub(core::str::slice_error_fail, crate::stubs::slice_error_fail_stub)] c12_upload_marker0 => upload_marker0;
     #[kani::unwind(20)] #[kani::stub(std::fmt::format, crate::stubs::fmt_stub)] #[kani::stub(core::str::slice_error_fail, crate::stubs::slice_error_fail_stub)] c12_upload_marker1 => upload_marker1;
     #[kani::unwind(20)] #[kani::stub(std::fmt::format, crate::stubs::fmt_stub)] #[kani::stub(core::str::slice_error_fail, crate::stubs::slice_error_fail_stub)] c12_upload_marker2 => upload_marker2;
     #[kani::unwind(20)] #[kani::stub(std::fmt::format, crate::stubs::fmt_stub)] #[kani::stub(core::str::slice_error_fail, crate::stubs::slice_error_fail_stub)] c12_upload_marker3 => upload_marker3;
     #[kani::unwind(20)] #[kani::stub(std::fmt::format, crate::stubs::fmt_stub)] #[kani::stub(core::str::slice_error_fail, crate::stubs::slice_error_fail_stub)] c12_upload_other => upload_other;
+    #[kani::unwind(3)] #[kani::stub(std::fmt::format, crate::stubs::fmt_stub)] #[kani::stub(std::hash::RandomState::new, crate::stubs::rs_new)] c12_upload_value_no_files => upload_value_no_files;
 }
